@@ -269,8 +269,192 @@ let pool_case (toks : string list) : string =
     String.concat " " (go pinit ops [])
   | _ -> failwith "bad pool case"
 
+(* ---------- generated code (Gen/*.v) ---------- *)
+let skind_of_name = function
+  | "bool" -> Some KBool | "int32" -> Some KInt32 | "int64" -> Some KInt64 | "uint32" -> Some KUInt32
+  | "uint64" -> Some KUInt64 | "sint32" -> Some KSInt32 | "sint64" -> Some KSInt64 | "fixed32" -> Some KFixed32
+  | "fixed64" -> Some KFixed64 | "sfixed32" -> Some KSFixed32 | "sfixed64" -> Some KSFixed64
+  | "float" -> Some KFloat | "double" -> Some KDouble | _ -> None
+let fkind_of (s : string) : fkind =
+  match skind_of_name s with
+  | Some k -> FNum k
+  | None ->
+    (match s with
+     | "enum" -> FEnum | "string" -> FString | "bytes" -> FBytes
+     | _ when String.length s > 3 && String.sub s 0 3 = "msg" -> FMsg (nat_of_int (int_of_string (String.sub s 3 (String.length s - 3))))
+     | _ -> failwith ("bad field kind " ^ s))
+(* schema term: idx=p2|p3:num,kind,card;...|idx=...   (messages in index order) *)
+let parse_schema (s : string) : mdesc list =
+  List.map (fun ms ->
+    match split '=' ms with
+    | [_; body] ->
+      (match split ':' body with
+       | syn :: rest ->
+         let fields = String.concat ":" rest in
+         let fds = if fields = "" then [] else List.map (fun f ->
+           match split ',' f with
+           | [num; kind; card] ->
+             let fc = (match split ':' card with
+               | ["i"] -> CImplicit | ["o"] -> COptional | ["q"] -> CRequired | ["rp"] -> CPacked | ["ru"] -> CUnpacked
+               | ["m"; kk; vk] -> CMap (fkind_of kk, fkind_of vk)
+               | [u] when String.length u > 1 && u.[0] = 'u' -> COneof (nat_of_int (int_of_string (String.sub u 1 (String.length u - 1))))
+               | _ -> failwith ("bad card " ^ card)) in
+             { fnum = n_of_int (int_of_string num); fkind_ = (if kind = "map" then FBytes else fkind_of kind); fcard_ = fc }
+           | _ -> failwith ("bad field " ^ f)) (split ';' fields) in
+         { mproto2 = (syn = "p2"); mfields = fds }
+       | _ -> failwith "bad message term")
+    | _ -> failwith "bad message term") (split '|' s)
+
+(* value text (pbrender format) *)
+let parse_value (s : string) : gval =
+  let pos = ref 0 in
+  let peek () = if !pos < String.length s then s.[!pos] else '$' in
+  let take_while p = let st = !pos in while !pos < String.length s && p s.[!pos] do incr pos done; String.sub s st (!pos - st) in
+  let is_hex c = (c >= '0' && c <= '9') || (c >= 'a' && c <= 'f') || c = '-' in
+  let rec value () : gval =
+    match peek () with
+    | 'n' -> incr pos; GNum (z_of_hex (take_while is_hex))
+    | 'b' -> incr pos; GBytes (bytes_of_hex (take_while is_hex))
+    | '[' -> incr pos;
+      let items = ref [] in
+      while peek () <> ']' do items := value () :: !items; if peek () = ',' then incr pos done;
+      incr pos; GList (List.rev !items)
+    | '{' -> incr pos;
+      let items = ref [] in
+      while peek () <> '}' do
+        let k = value () in
+        if peek () <> ':' then failwith "map: expected :"; incr pos;
+        let v = value () in
+        items := (k, v) :: !items; if peek () = ',' then incr pos done;
+      incr pos; GMap (List.rev !items)
+    | '(' -> incr pos;
+      let fields = ref [] and unknown = ref [] in
+      while peek () <> ')' do
+        if peek () = 'u' then begin
+          incr pos; incr pos; unknown := bytes_of_hex (take_while is_hex)
+        end else begin
+          let num = int_of_string (take_while (fun c -> c >= '0' && c <= '9')) in
+          if peek () <> '=' then failwith "msg: expected ="; incr pos;
+          fields := (n_of_int num, value ()) :: !fields
+        end;
+        if peek () = ';' then incr pos
+      done;
+      incr pos; GMsg (List.rev !fields, !unknown)
+    | c -> failwith (Printf.sprintf "bad value at %d (%c)" !pos c) in
+  value ()
+
+(* canonical map-entry order (Go iterates maps in random order): runs of entries of one map field
+   are sorted bytewise, recursively inside nested messages -- mirror of canonBytes in cmd/gen *)
+let rec canon_msg (sc : mdesc list) (ty : int) (b : int list) : int list =
+  let md = (try Some (List.nth sc ty) with _ -> None) in
+  match md with None -> b | Some md ->
+  let find num = List.find_opt (fun f -> int_of_n f.fnum = num) md.mfields in
+  canon_fields sc b (fun num -> match find num with
+      | Some f -> (match f.fcard_, f.fkind_ with
+          | CMap (_, vk), _ -> `Map vk
+          | _, FMsg t -> `Msg (int_of_nat t)
+          | _ -> `Other)
+      | None -> `Other)
+and canon_fields sc (b : int list) (classify : int -> [`Map of fkind | `Msg of int | `Other]) : int list =
+  let arr = Array.of_list b in
+  let n = Array.length arr in
+  let rd_varint i = (* value, next index; raises on malformed *)
+    let v = ref 0 and sh = ref 0 and j = ref i and fin = ref false in
+    while not !fin do
+      if !j >= n then failwith "trunc";
+      let c = arr.(!j) in
+      if !sh < 56 then v := !v lor ((c land 0x7f) lsl !sh);
+      sh := !sh + 7; incr j;
+      if c < 0x80 then fin := true
+    done; (!v, !j) in
+  (try
+    let fields = ref [] in
+    let i = ref 0 in
+    while !i < n do
+      let (key, j) = rd_varint !i in
+      let num = key lsr 3 and wt = key land 7 in
+      let (stop, payload) = (match wt with
+        | 0 -> let (_, k) = rd_varint j in (k, None)
+        | 1 -> (j + 8, None)
+        | 5 -> (j + 4, None)
+        | 2 -> let (l, k) = rd_varint j in (k + l, Some (k, l))
+        | _ -> failwith "wt") in
+      if stop > n then failwith "trunc";
+      let raw = Array.to_list (Array.sub arr !i (stop - !i)) in
+      let raw = (match payload, classify num with
+        | Some (k, l), `Msg t ->
+          let sub = canon_msg sc t (Array.to_list (Array.sub arr k l)) in
+          Array.to_list (Array.sub arr !i (j - !i)) @ varint_bytes (List.length sub) @ sub
+        | Some (k, l), `Map vk ->
+          let sub = canon_fields sc (Array.to_list (Array.sub arr k l))
+              (fun n2 -> match n2, vk with 2, FMsg t -> `Msg (int_of_nat t) | _ -> `Other) in
+          Array.to_list (Array.sub arr !i (j - !i)) @ varint_bytes (List.length sub) @ sub
+        | _ -> raw) in
+      fields := (num, raw, (match classify num with `Map _ -> true | _ -> false)) :: !fields;
+      i := stop
+    done;
+    let fields = List.rev !fields in
+    (* sort runs of the same map field *)
+    let rec runs = function
+      | [] -> []
+      | (num, raw, true) :: rest ->
+        let rec span acc = function
+          | (n2, r2, true) :: tl when n2 = num -> span (r2 :: acc) tl
+          | tl -> (List.rev acc, tl) in
+        let (run, tl) = span [raw] rest in
+        List.concat (List.sort compare run) @ runs tl
+      | (_, raw, false) :: rest -> raw @ runs rest in
+    runs fields
+  with _ -> b)
+and varint_bytes (v : int) : int list =
+  if v < 128 then [v] else (v land 0x7f lor 0x80) :: varint_bytes (v lsr 7)
+
+let ints_of_bytes (l : n list) : int list = List.map int_of_n l
+let hex_of_ints (l : int list) : string =
+  if l = [] then "-" else String.concat "" (List.map (Printf.sprintf "%02x") l)
+
+(* gval in the pbrender text format: fields by ascending number, map entries by key text *)
+let rec str_gval (v : gval) : string =
+  match v with
+  | GAbsent -> "?"
+  | GNum z -> "n" ^ hex_of_z z
+  | GBytes b -> "b" ^ hex_of_bytes b
+  | GList l -> "[" ^ String.concat "," (List.map str_gval l) ^ "]"
+  | GMap kvs ->
+    let es = List.map (fun (k, x) -> (str_gval k, str_gval x)) kvs in
+    let es = List.sort (fun (a, _) (b, _) -> compare a b) es in
+    "{" ^ String.concat "," (List.map (fun (k, x) -> k ^ ":" ^ x) es) ^ "}"
+  | GMsg (fs, u) ->
+    let fs = List.sort (fun (a, _) (b, _) -> compare (int_of_n a) (int_of_n b)) fs in
+    let parts = List.map (fun (n, x) -> dec_of_n n ^ "=" ^ str_gval x) fs in
+    let parts = if u = [] then parts else parts @ ["u=" ^ hex_of_bytes u] in
+    "(" ^ String.concat ";" parts ^ ")"
+
+let gen_case (toks : string list) : string =
+  match toks with
+  | [op; schema; ty; input] when String.length op >= 2 && String.sub op 0 2 = "RD" ->
+    let sc = parse_schema schema in
+    let tyi = nat_of_int (int_of_string ty) in
+    let p = bytes_of_hex input in
+    let fuel = nat_of_int (List.length p + 2) in
+    (match ref_decode sc fuel tyi p with
+     | None -> "err"
+     | Some v -> "ok " ^ str_gval (normalize sc fuel tyi v))
+  | [op; schema; ty; value] when String.length op >= 2 && String.sub op 0 2 = "SM" ->
+    let sc = parse_schema schema in
+    let tyi = int_of_string ty in
+    let v = parse_value value in
+    let fuel = S (vdepth v) in
+    let sz = int_of_nat (gen_size sc fuel (nat_of_int tyi) v) in
+    (match gen_marshal sc (nat_of_int tyi) v with
+     | MErr -> "err"
+     | MPanic -> "panic"
+     | MBytes b -> string_of_int sz ^ " " ^ hex_of_ints (canon_msg sc tyi (ints_of_bytes b)))
+  | _ -> failwith "bad gen case"
+
 let dispatch (line : string) : string =
   match split ' ' line with
+  | "G" :: rest -> gen_case rest
   | "L" :: rest -> lazy_case rest
   | "P" :: rest -> pool_case rest
   | "W" :: rest -> wire_case rest
